@@ -74,10 +74,64 @@ def neg(e):
     if e[0] == 'sub' and len(e) == 3:
         # -(a - b) is b - a, exactly (rounding is symmetric)
         return ('sub', e[2], e[1])
+    if e[0] in ('min', 'max'):
+        # -min(a, b) is max(-a, -b)
+        return mk('max' if e[0] == 'min' else 'min', [neg(a) for a in e[1]])
     return ('neg', e)
 
 
+def _dnf(e):
+    """min/max term over atoms -> set of frozensets (max over clauses of min over atoms); +inf / -inf are the top / bottom of the lattice"""
+    if e == INF:
+        return {frozenset()}
+    if e == NINF:
+        return set()
+    if isinstance(e, tuple) and e and e[0] == 'max':
+        out = set()
+        for a in e[1]:
+            out |= _dnf(a)
+        return out
+    if isinstance(e, tuple) and e and e[0] == 'min':
+        acc = {frozenset()}
+        for a in e[1]:
+            d = _dnf(a)
+            acc = {x | y for x in acc for y in d}
+            if len(acc) > 256:
+                raise OverflowError
+        return acc
+    return {frozenset([e])}
+
+
+def lattice_canon(e):
+    """canonical form of a min/max term: the reals under min and max are a distributive lattice, so `min(a, max(b, c))` and
+    `max(min(a, b), min(a, c))` are one function; the disjunctive normal form with absorbed clauses is unique over independent atoms"""
+    if not (isinstance(e, tuple) and e and e[0] in ('min', 'max')):
+        return e
+    try:
+        d = _dnf(e)
+    except OverflowError:
+        return e
+    d = {c for c in d if not any(o < c for o in d)}         # absorption: max(a, min(a, b)) = a
+    if not d:
+        return NINF
+    if frozenset() in d:
+        return INF
+    clauses = []
+    for c in d:
+        atoms = sorted(c, key=repr)
+        clauses.append(atoms[0] if len(atoms) == 1 else ('min', tuple(atoms)))
+    clauses = sorted(clauses, key=repr)
+    return clauses[0] if len(clauses) == 1 else ('max', tuple(clauses))
+
+
 def mk(op, args):
+    args = list(args)
+    if op in ('min', 'max'):
+        return lattice_canon(_mk_raw(op, args))
+    return _mk_raw(op, args)
+
+
+def _mk_raw(op, args):
     args = list(args)
     if op in ('min', 'max'):
         flat = []
@@ -1076,6 +1130,21 @@ class DenseLoop(object):
 
     def _body(self, stmts, loc, out, lists):
         for s in stmts:
+            if isinstance(s, ast.Assign) and len(s.targets) == 1 and isinstance(s.targets[0], ast.Tuple) and len(s.targets[0].elts) == 2 \
+                    and isinstance(s.value, ast.Name) and loc.get(s.value.id, (None,))[0] == 'PAIR':
+                # t, v = sample   /   t, (l, r) = sample   (a sample of the split merge carries the pair of operand values)
+                base = loc[s.value.id][1]
+                t0, t1 = s.targets[0].elts
+                if isinstance(t0, ast.Name):
+                    loc[t0.id] = ('time',)
+                if isinstance(t1, ast.Name):
+                    loc[t1.id] = base
+                elif isinstance(t1, ast.Tuple) and len(t1.elts) == 2 and isinstance(base, tuple) and base[0] == 'pairval' and all(isinstance(x, ast.Name) for x in t1.elts):
+                    loc[t1.elts[0].id] = base[1]
+                    loc[t1.elts[1].id] = base[2]
+                else:
+                    raise Unknown('loop assignment target')
+                continue
             if isinstance(s, ast.Assign) and len(s.targets) == 1:
                 t = s.targets[0]
                 key = t.id if isinstance(t, ast.Name) else ('self.' + t.attr if isinstance(t, ast.Attribute) and isinstance(t.value, ast.Name) and t.value.id == 'self' else None)
